@@ -1907,8 +1907,11 @@ func (p *parser) scanCharSet(caseInsensitive, scanOnly bool) (*CharSet, error) {
 	if !scanOnly && caseInsensitive {
 		cc.addLowercase()
 	}
-	if !scanOnly {
-		// all items are in: now the class can take its normal form
+	if !scanOnly && !caseInsensitive {
+		// all items are in: now the class can take its normal form. A case-insensitive
+		// class takes it when its case equivalences are added (to a copy, which is no longer
+		// marked as being built): negating it before that would add the case partners of
+		// the excluded characters to the excluded side.
 		cc.building = false
 		cc.canonicalize()
 	}
